@@ -107,6 +107,9 @@ def check(ctx):
     ctx.rule("R8", "no transmission after the answer: in the engine pass that dispatches the answer the handler's loop() cannot retry - because handled() restarts the timeout on every path, or loop() skips flagged handlers, or the clean-up precedes loop()")
     ctx.rule("R7", "handshake chain: start_connect -> _on_version_received -> _on_channel_received -> _on_config_received -> retry_request -> _final_connect exists and every step both registers and queues its request handler")
 
+    ctx.rule("R10", "the handshake ends with an IDENTICAL status block: every segment passes through the packet framing on both sides; a frame built by send_bytes and handed to the packet layer's handle() gives back exactly the payload, for any payload bytes - trailing blanks, tabs and newlines included (C04's symbolic frame round trip borrowed)")
+    from .c04 import framing as _framing20
+    _framing20(ctx.borrowed("R10", "C04", only=("R4",), key_contains="frame-round-trip::payload"), repo)
     ctx.rule("R9", "loss is visible to the client: when the simulator itself drops segments of a status-block answer the survivors keep their index, next and bytes (a gap the blocking client answers by asking again) - renumbered survivors would complete the handshake with a shortened, shifted block (C01.R6's unreliable-simulator scenario borrowed)")
     from .c01 import simulator_chain_concrete as _scc
     _scc(ctx.borrowed("R9", "C01", key_contains="dropped-segments-leave-a-gap"), repo, repo.method("GeckoSimulator", "_on_status_block"))
